@@ -37,8 +37,31 @@ func (r *rs) psyncReply() {
 	}
 	_, sb := pat.Stmt("_x, _err = redis.AsString(_r, nil)").Find(info, fn.Decl.Body, db)
 	var xb pat.Binds
+	// the reply line split into fields; the line may have been case-folded as a whole first
+	// (strings.ToLower(string(x))): then every field, the run id included, is folded
+	folded := ""
 	if sb != nil {
-		_, xb = pat.Stmt("_xx = strings.Split(string(_x), _sep)").Find(info, fn.Decl.Body, sb)
+		for _, cand := range pat.Stmt("_xx = strings.Split(_line, _sep)").FindAll(info, fn.Decl.Body, nil) {
+			cb := pat.Stmt("_xx = strings.Split(_line, _sep)").Match(info, cand, nil)
+			line, fold := ast.Unparen(flow.Resolve(info, fn.Decl.Body, cb["_line"].(ast.Expr))), ""
+			for {
+				call, ok := line.(*ast.CallExpr)
+				if !ok || len(call.Args) != 1 {
+					break
+				}
+				if f := core.CalleeFunc(info, call); core.IsFunc(f, "strings", "", "ToLower") {
+					fold = "lower"
+				} else if core.IsFunc(f, "strings", "", "ToUpper") {
+					fold = "upper"
+				} else if tv, isConv := info.Types[call.Fun]; !isConv || !tv.IsType() {
+					break
+				}
+				line = ast.Unparen(flow.Resolve(info, fn.Decl.Body, call.Args[0]))
+			}
+			if pat.Same(info, line, sb["_x"]) {
+				xb, folded = cb, fold
+			}
+		}
 	}
 	if xb == nil {
 		c.Undecidedf("R5.reply", "SendPSyncContinue/fields", dec.Pos(), "cannot find the reply line being split into fields")
@@ -121,6 +144,10 @@ func (r *rs) psyncReply() {
 					c.Check("R5.reply", key, pos, s == kw, fmt.Sprintf("a lower-cased field is compared with %q, which can never match: the reply is rejected whatever its letter case", s))
 				case cf != nil && core.IsFunc(cf, "strings", "", "ToUpper") && field(arg0()) == 0:
 					c.Check("R5.reply", key, pos, s == strings.ToUpper(s), fmt.Sprintf("an upper-cased field is compared with %q, which can never match: the reply is rejected whatever its letter case", s))
+				case field(other) == 0 && folded == "lower":
+					c.Check("R5.reply", key, pos, s == kw, fmt.Sprintf("a field of the lower-cased reply is compared with %q, which can never match", s))
+				case field(other) == 0 && folded == "upper":
+					c.Check("R5.reply", key, pos, s == strings.ToUpper(s), fmt.Sprintf("a field of the upper-cased reply is compared with %q, which can never match", s))
 				case field(other) == 0:
 					c.Failf("R5.reply", key, pos, "field 0 is compared with %q case-sensitively: a reply spelled in the other letter case (e.g. %q) is rejected", s, swapCase(s))
 				default:
@@ -151,7 +178,11 @@ func (r *rs) psyncReply() {
 			nf++
 			// run id <- field 1, offset <- ParseInt(field 2), header read from br
 			rid := flow.Resolve(info, fn.Decl.Body, ret.Results[0])
-			c.Check("R5.reply", "SendPSyncContinue/fullresync-runid", ret.Pos(), field(rid) == 1, fmt.Sprintf("on FULLRESYNC the run id is reply field 1 (found %s): a wrong run id makes every later PSYNC a full resync or, worse, continues the wrong history", c.Src(rid)))
+			if field(rid) == 1 && folded != "" {
+				c.Failf("R5.reply", "SendPSyncContinue/fullresync-runid", ret.Pos(), "the run id is field 1 of the %s-cased reply line: a run id announced with letters of the other case is altered, the source does not recognise it in the next PSYNC and answers with a full resync", folded)
+			} else {
+				c.Check("R5.reply", "SendPSyncContinue/fullresync-runid", ret.Pos(), field(rid) == 1, fmt.Sprintf("on FULLRESYNC the run id is reply field 1 (found %s): a wrong run id makes every later PSYNC a full resync or, worse, continues the wrong history", c.Src(rid)))
+			}
 			off := flow.Resolve(info, fn.Decl.Body, ret.Results[1])
 			okOff := false
 			if oo := flow.Obj(info, off); oo != nil {
@@ -537,11 +568,17 @@ func (r *rs) rawConn(pkgPath, recv, name string) {
 // it returns, because a non-nil channel means that an RDB precedes the commands.
 func (r *rs) replyUsed() {
 	c := r.c
-	spc := r.fn(pkgU, "", "SendPSyncContinue")
+	spc := c.Func(pkgU, "", "SendPSyncContinue")
 	if spc == nil {
 		return
 	}
-	n := 0
+	// one obligation per role (the initial handshake / any later reconnect), however many functions -
+	// or expanded copies of a helper - contain a call of that role
+	type agg struct {
+		n, bad int
+		pos    token.Pos
+	}
+	roles := map[string]*agg{}
 	for _, pp := range []string{pkgS, pkgR, pkgU} {
 		pk := c.Pkg(pp)
 		info := pk.TypesInfo
@@ -552,7 +589,6 @@ func (r *rs) replyUsed() {
 					continue
 				}
 				for _, call := range callsTo(info, fd.Body, spc.Obj, true) {
-					n++
 					wait := assignedVar(info, fd.Body, call, 2)
 					used := false
 					if wait != nil {
@@ -563,18 +599,33 @@ func (r *rs) replyUsed() {
 							return true
 						})
 					}
-					// the key names the role of the call, not the function that happens to contain it
 					role := "reconnect"
 					if fd.Name.Name == "sendPSyncCmd" {
 						role = "sendPSyncCmd"
 					}
-					c.Check("R5.use", role+"/wait-result-used", call.Pos(), used,
-						"the wait channel returned by SendPSyncContinue is discarded: when the source answers this PSYNC with +FULLRESYNC, the header goroutine started on the reader and the stream copy that follows read the same reader concurrently, so '$n', the RDB bytes and the commands are split between them and the command parser is fed RDB bytes (the announced run id/offset are ignored as well)")
+					a := roles[role]
+					if a == nil {
+						a = &agg{pos: call.Pos()}
+						roles[role] = a
+					}
+					a.n++
+					if !used {
+						a.bad++
+						a.pos = call.Pos()
+					}
 				}
 			}
 		}
 	}
-	if n < 2 {
-		c.Undecidedf("instances", "R5.use", token.NoPos, "only %d callers of SendPSyncContinue found, 2 confirmed by hand", n)
+	for _, role := range []string{"sendPSyncCmd", "reconnect"} {
+		a := roles[role]
+		if a == nil {
+			continue
+		}
+		c.Check("R5.use", role+"/wait-result-used", a.pos, a.bad == 0,
+			"the wait channel returned by SendPSyncContinue is discarded: when the source answers this PSYNC with +FULLRESYNC, the header goroutine started on the reader and the stream copy that follows read the same reader concurrently, so '$n', the RDB bytes and the commands are split between them and the command parser is fed RDB bytes (the announced run id/offset are ignored as well)")
+	}
+	if len(roles) < 2 {
+		c.Undecidedf("instances", "R5.use", token.NoPos, "only %d roles of SendPSyncContinue callers found, 2 confirmed by hand", len(roles))
 	}
 }
